@@ -309,7 +309,11 @@ impl Runner {
                 if self.owned.contains(&o.class) {
                     continue;
                 }
-                if o.class.diverging() {
+                // A call that failed where the model expected success leaves both sides where
+                // they were (the model is only advanced on success, and the master key is
+                // compared with its snapshot): nothing has diverged, the run goes on.
+                let refused_only = o.class == Class::OkErr && o.what.ends_with("expected-ok-got-err");
+                if o.class.diverging() && !refused_only {
                     self.diverged = Some(format!("{}/{}", o.class.name(), o.what));
                     break;
                 } else {
@@ -437,6 +441,15 @@ pub fn run_seed(prop: &str, seed: u64, thorough: bool, record: Option<&str>) -> 
     }
     if broad {
         runner.world.stats.probe("swarm-hundreds-of-components");
+    }
+    if matches!(prop, "C17" | "C13") && !huge && rng.pct(3) {
+        // more than 255 identifiers registered in the master key, then a crash-restart of it
+        let ev = gen.try_keygen(&mut rng, &runner.world, 0);
+        if let Ev::Keygen { user, pol } = ev {
+            let n = rng.range(256, 300);
+            runner.apply(&Ev::KeygenBurst { user, pol, n });
+            runner.apply(&Ev::Reload { what: ReloadTarget::Msk });
+        }
     }
     for u in 0..n_users {
         if !huge && rng.pct(85) {
